@@ -249,7 +249,7 @@ Proof.
     match goal with |- context[match ?x with Some _ => _ | None => _ end] => destruct x as [[active' avail3]|] end;
       [|destruct NCID_EMPTY_CLOSES; intros H; inversion H; subst; exact Logic.I].
     destruct (1 + Zlen avail3 >? LOCAL_ACTIVE_CID_LIMIT); [intros H; inversion H; subst; exact Logic.I|].
-    match goal with |- context[if (Zlen ?q >? ?q2) then _ else _] => destruct (Zlen q >? q2) end; [intros H; inversion H; subst; exact Logic.I|].
+    match goal with |- context[if over_retire_cap ?q ?q2 then _ else _] => destruct (over_retire_cap q q2) end; [intros H; inversion H; subst; exact Logic.I|].
     intros H; inversion H; subst. apply (XInv_same c _ p X); cbn; auto; lia.
   - unfold handle_path_packet. destruct (pfind addr (c_paths c)); intros H; inversion H; subst; apply (XInv_same c _ p X); cbn; auto; lia.
 Qed.
